@@ -897,8 +897,16 @@ func runMain(args []string) int {
 		for _, r := range results {
 			e := r.Entry
 			rf := e.Func
-			if len(e.Stubs) > 0 || e.Replay == "-" {
-				continue // stubbed harnesses cannot run natively as-is
+			if e.Replay == "-" {
+				continue
+			}
+			if len(e.Stubs) > 0 {
+				// stubbed harnesses cannot run natively as they are: their
+				// scenario realiser runs the real code on the model instead
+				if e.Replay == "" {
+					continue
+				}
+				rf = e.Replay
 			}
 			for k, m := range r.PassModels {
 				if k >= 3 {
@@ -913,6 +921,8 @@ func runMain(args []string) int {
 				oc := runReplay(bin, e.Dir, replayCase{Func: rf, Model: m}, e.ReplayTimeoutS, scratch, e.Tiers[*tier].Params)
 				if oc.Status == "ok" {
 					passValidated++
+				} else if oc.Status == "unreplayable" {
+					continue
 				} else {
 					passDisagree++
 					fmt.Printf("ENGINE-DISAGREEMENT property=%s entry=%s passing path fails natively: %s %s model=%s\n%s\n", *prop, e.Name, oc.Status, oc.Msg, modelString(m), oc.Output)
